@@ -4,6 +4,8 @@ import (
 	"fmt"
 	"regexp"
 
+	"golang.org/x/tools/go/ssa"
+
 	"kverif/core"
 )
 
@@ -50,7 +52,7 @@ func c09Rules(tier string) []Rule {
 			G(`+^cloudprovider\.IsNodeClaimNotFoundError\(iface:\(cloudprovider\.CloudProvider\)\.Get\(\$0\.cloudProvider, \$2\.Spec\.ProviderID\)#1\)$`,
 				`+^lo\.IsEmpty\[cr/reconcile\.Result\]\(phi\(`),
 			G(`-^utils/node\.GetCondition\(\$2, "Ready"\)\.Status == "True"$`, `+^lo\.IsEmpty\[cr/reconcile\.Result\]\(phi\(`),
-			G(`-^iface:\(cloudprovider\.CloudProvider\)\.Get\(\$0\.cloudProvider, \$2\.Spec\.ProviderID\)#1 == nil$`, `+^phi\(phi\(nil\|dyn:.*\) == nil$`),
+			G(`-^iface:\(cloudprovider\.CloudProvider\)\.Get\(\$0\.cloudProvider, \$2\.Spec\.ProviderID\)#1 == nil$`, `+^phi\(dyn:.*#1\|phi\(nil\|dyn:.*\) == nil$`),
 			G(`-^iface:\(cloudprovider\.CloudProvider\)\.Get\(\$0\.cloudProvider, \$2\.Spec\.ProviderID\)#1 == nil$`, `+^\(\*tor\.Terminator\)\.Taint\(\$0\.terminator, \$2, apis/v1\.DisruptedNoScheduleTaint\) == nil$`),
 			G(`+^cr/controller/controllerutil\.ContainsFinalizer\(<\*corev1\.Node>\$2, "karpenter\.sh/termination"\)$`),
 			G(`+^utils/node\.IsManaged\(\$2, \$0\.cloudProvider\)$`),
@@ -108,11 +110,18 @@ func c09Rules(tier string) []Rule {
 		// ---- Terminator.Drain
 		MPT{ID: "C09.MPT1", Fn: drain, Ret: core.RetNilConst, Gates: gates(
 			G(`+^utils/node\.GetPods\(\$0\.kubeClient, .*\)#1 == nil$`),
-			G(`-^len\(phi\(nil\|append\(phi↺, …\[:\]\)\|phi↺\)\)>=1$`),
+			G(`-^len\(phi\(nil\|phi↺\|append\(phi↺, …\[:\]\)\)\)>=1$`),
 			G(`-^\(phi\(-1\|\(phi↺ \+ 1\)\) \+ 1\) < len\(\(\*tor\.Terminator\)\.groupPodsByPriority\(`),
 		)},
 		IMPL{ID: "C09.IMPL1", Fn: drain, Lit: `+^len\(\(\*tor\.Terminator\)\.groupPodsByPriority\(.*\)\[.*\]\)>=1$`, Not: core.RetOK},
 		core.Custom{ID: "C09.PROV2", Kind: "PROV", Run: c09DrainPartition},
+
+		// drain is complete only when no drainable pod is left: every pod handed to groupPodsByPriority lands in one of the
+		// groups it returns (a pod in no group would never be queued, and Drain would report the node drained)
+		ITER{ID: "C09.ITER1", Fn: "(*tor.Terminator).groupPodsByPriority", Loop: `+^\(phi\(-1\|\(phi↺ \+ 1\)\) \+ 1\) < len\(\$1\)$`, Gates: gates(
+			G(`instr:^call append\(phi\(nil\|.*, &local<\[1\]\*corev1\.Pod>\[:\]\)$`),
+		)},
+		core.Custom{ID: "C09.REG2", Kind: "REG", Run: c09GroupsReturned},
 
 		// ---- NodeClaim finalizer
 		DOM{ID: "C09.DOM6", Fn: lfin, Sink: `^call cr/controller/controllerutil\.RemoveFinalizer\(<\*apis/v1\.NodeClaim>\$2, "karpenter\.sh/termination"\)`, Gates: gates(
@@ -182,7 +191,7 @@ func c09DrainPartition(w *core.World, id string) []core.Result {
 	if pred == nil {
 		return []core.Result{core.Bad(id, "PROV", "PROV:"+drain+":waiting", "", "the waiting-pod filter of Drain cannot be resolved (must be lo.Filter(GetPods(node), …))")}
 	}
-	if len(w.Sites(pred, regexp.MustCompile(`^return utils/pod\.IsWaitingEviction\(\$0, \^\$0\.clock\)$`), false)) == 0 {
+	if len(w.SitesOr(pred, regexp.MustCompile(`^return utils/pod\.IsWaitingEviction\(\$0, \^\$0\.clock\)$`), false, 1)) == 0 {
 		return []core.Result{core.Bad(id, "PROV", "PROV:"+drain+":waiting", w.Pos(pred.Pos()), "the waiting set is no longer exactly the pods for which IsWaitingEviction holds")}
 	}
 	fn := w.Fn(drain)
@@ -191,4 +200,42 @@ func c09DrainPartition(w *core.World, id string) []core.Result {
 	rs := p.Check(w)
 	_ = fn
 	return rs
+}
+
+// c09GroupsReturned: every slice groupPodsByPriority appends a pod to is one of the slices it returns.
+func c09GroupsReturned(w *core.World, id string) []core.Result {
+	const fname = "(*tor.Terminator).groupPodsByPriority"
+	fn := w.Fn(fname)
+	if fn == nil {
+		return []core.Result{core.Anchor(id, "REG", fname)}
+	}
+	construct := "REG:" + fname + ":returned"
+	re := regexp.MustCompile(`^store &local<\[\d+\]\[\]\*corev1\.Pod>\[\d+\] = `)
+	returned := map[ssa.Value]bool{}
+	for _, s := range w.Sites(fn, re, false) {
+		returned[s.(*ssa.Store).Val] = true
+	}
+	if len(w.Sites(fn, regexp.MustCompile(`^return &local<\[\d+\]\[\]\*corev1\.Pod>\[:\]$`), false)) == 0 || len(returned) == 0 {
+		return []core.Result{core.Bad(id, "REG", construct, w.Pos(fn.Pos()), "the groups are no longer returned as a literal of the accumulated slices (idiom not recognised)")}
+	}
+	n := 0
+	for _, b := range fn.Blocks {
+		for _, in := range b.Instrs {
+			c, ok := in.(*ssa.Call)
+			if !ok {
+				continue
+			}
+			if bi, ok := c.Call.Value.(*ssa.Builtin); !ok || bi.Name() != "append" {
+				continue
+			}
+			n++
+			if !returned[c.Call.Args[0]] {
+				return []core.Result{core.Bad(id, "REG", construct, w.InstrPos(c), "a pod is appended to a slice that is not among the returned groups: it is never queued for eviction, yet Drain reports the node drained")}
+			}
+		}
+	}
+	if n == 0 {
+		return []core.Result{core.Bad(id, "REG", construct, w.Pos(fn.Pos()), "no append found (idiom not recognised)")}
+	}
+	return []core.Result{core.OK(id, "REG", construct, n, "every accumulated slice is returned")}
 }
